@@ -14,7 +14,7 @@ P = {
          "and of Mp4Writer (write_start, add_track, write_sample, update_mdat_size, write_end) is proved to transform the abstract views (per-sample sizes, durations, composition offsets, sync flags, chunk map) exactly as "
          "appending the written sample does, for all histories; rejected calls are proved to leave the writer observationally unchanged; the pending bytes are proved to be appended verbatim and flushed at the recorded offset. "
          "The views are the ISO expansions that C03 proves the reader to implement."),
-   note=TRUST + " Both halves are mechanised separately -- muxer: history -> tables -> bytes (reference encoders); reader: bytes -> moov -> trak -> ... -> tables (file_parsed / moov_at / stbl_at, decoding of the last child of each type on the sibling chain) -> lookups -- and the table / header codecs are connected by proved spec-level round-trip lemmas; the single end-to-end composition theorem (history -> bytes -> reader) is not stated as one lemma. Histories < 2^32-2 samples per track and sample length < 4 GiB are stated preconditions."),
+   note=TRUST + " Both halves are mechanised separately -- muxer: history -> tables -> bytes (reference encoders); reader: bytes -> moov -> trak -> ... -> tables (file_parsed / moov_at / stbl_at, decoding of the last child of each type on the sibling chain) -> lookups -- and the table / header codecs are connected by proved spec-level round-trip lemmas; Mp4Writer::write_end's postcondition mw_final names the finished file, and the specification-level lemmas lemma_moov_roundtrip / lemma_file_roundtrip prove that such a file satisfies the reader's file relation for the muxer's own (normalised) movie box and ftyp; not linked by proof: survival of the file prefix through write_sample, and the sample-bytes half (lookups on the muxer's tables return the offsets where write_sample put the bytes). Histories < 2^32-2 samples per track and sample length < 4 GiB are stated preconditions."),
  'C02': dict(claim=True, cat='proof', technique='Verus: representation invariant = mutual consistency of the tables, chunk-map step lemma, duration contracts, byte-exact layout of write_start / update_mdat_size, size contracts on every box of the moov tree',
    text=("The writer invariant tw_wf is literally the mutual consistency of the sample tables (size, time-to-sample, composition-offset, sample-to-chunk tables each account for exactly n samples; sync numbers strictly increasing and in range; "
          "every chunk holds at least one sample); write_end is proved to return tables satisfying muxed_tables_consistent; mdhd.duration is proved equal to the summed durations, tkhd.duration to its floor conversion, the movie duration to the maximum; "
@@ -36,7 +36,7 @@ P = {
          "Byte-exact encoders, proved write by write against reference bytes (tool/gen_pieces.py), additionally for the esds descriptors, vp09, hev1, hvcC (incl. the NAL-unit arrays), tx3g, url, dref, dinf, stbl, minf, mdia, trak, moov, and on the fragment side elst, edts, trun, traf, moof, mvex, emsg (metadata boxes have no byte-exact encoder and are required absent, as in everything the muxer builds). "
          "Kani proves decode(encode(x)) == x on the compiled code for smhd, mfhd, trex, vmhd with every field symbolic (complete; a violation there is reported with a replayed counterexample)."),
    note=TRUST + " Domain: box_size <= u32::MAX (D-20). Round trip not mechanised for the size-level boxes. "
-        "Not under functional contract: hdlr name / url location strings on the decode side, encoders of ilst / meta / udta (HashMap iteration); the two NUL-terminated string helpers of emsg are assumed (their contracts state the bytes); the esds descriptor tree is decoded functionally for well-formed chains only (malformed chains: safety / termination only); container-level decode round trips are not mechanised."),
+        "Not under functional contract: hdlr name / url location strings on the decode side, encoders of ilst / meta / udta (HashMap iteration); the two NUL-terminated string helpers of emsg are assumed (their contracts state the bytes); the esds descriptor tree is decoded functionally for well-formed chains only (malformed chains: safety / termination only); container-level decode round trips are proved for stbl, minf, mdia, trak, moov and the file layout (spec/roundtrip_containers.rs) for the shapes the muxer builds."),
  'C05': dict(claim=True, cat='proof', technique='same obligations as C04; the specs are generated from the ISO syntax tables with clause numbers (tool/gen_layouts.py, tool/gen_tables.py) or written from them; Kani full-domain harnesses for bit-level helpers',
    text="Conformance of the boxes listed under C04 (byte level), of the descriptor length coding (size_of_length, Kani all u32), the AAC object-type escape coding (Verus + Kani all 2^16), the box-type registry (Kani: independent table) and BoxHeader::read (Kani, all 16-byte inputs: complete) to layouts written from ISO/IEC 14496-12/-14/-1, proved separately for encoder and decoder so that a symmetric mistake fails on both.",
    note=TRUST + " Bit-packed records: avcC, vpcC, the AudioSpecificConfig and the DecoderConfigDescriptor are covered byte-exactly; hvcC byte-exactly on the encode side and field by field (header and NAL-unit arrays) on the decode side."),
@@ -79,7 +79,8 @@ P = {
          "The esds descriptor tree (ES_Descriptor, DecoderConfigDescriptor with both bitrates, AudioSpecificConfig, SLConfigDescriptor) is byte-exact on the encode side and decoded functionally for well-formed chains; lemma_esds_roundtrip / lemma_mp4a_roundtrip / lemma_avc1_roundtrip / lemma_hdlr_roundtrip / lemma_stsd_roundtrip prove that the reference bytes of what the muxer builds decode to the same values; "
          "Mp4TrackWriter::new is proved to build exactly those shapes with the configured values, write_end to change nothing of the sample description but bufferSizeDB; hdlr, stsd, stbl ... moov encoders are byte-exact. "
          "Mp4Writer::write_end's postcondition (mw_final) names the finished file: pending chunks flushed in track order, mdat size patched, moov = byte-exact encoding of the finished tracks. "
-         "Level 'other': the container-level decode round trip (frame lemmas) and therefore the end-to-end composition is not one lemma."),
+         lemma_trak_roundtrip / lemma_moov_roundtrip / lemma_file_roundtrip prove at specification level that the reader's relations hold on those bytes for the same (normalised) values. "
+         "Level 'other': the link from trak_of_track to the hypothesis moov_muxed of that lemma, and the survival of the ftyp / mdat prefix through write_sample, are not stated as contracts."),
    note=TRUST),
  'C15': dict(claim=True, cat='proof', technique='Verus frame conditions + postconditions that are functions of (tables, stream data, arguments)',
    text="Reader calls leave tracks/moov/ftyp/size and the stream content unchanged (&mut self frame proved) and their results are specified purely in terms of the tables, the stream data and the arguments (never the stream position), with uniqueness lemmas, so any call history returns what a fresh reader returns. Muxer: every step's result is a function of the previous abstract state and the arguments (C01).",
